@@ -316,3 +316,10 @@ class Summaries:
                     out |= self.trans(tgt, depth)
         # `with open(...)`: closing a handle is part of the statement
         return out
+
+
+def strip_not(expr, pol):
+    """(expr, polarity) with leading `not`s removed."""
+    while isinstance(expr, ast.UnaryOp) and isinstance(expr.op, ast.Not):
+        expr, pol = expr.operand, not pol
+    return expr, pol
